@@ -109,6 +109,9 @@ func vary(c Case, k int) Case {
 		d := doorsFor(c)
 		c.Entry = d[k%len(d)]
 	}
+	if k%2 == 1 {
+		c.Spell = (k*7 + k/32) & spellAll
+	}
 	return withAfter(c, k)
 }
 
